@@ -449,6 +449,11 @@ def run(ctx) -> None:
     ctx.rule("C01.R9", "add_order_link joins out(-1) to inp(-1) unless exactly that link exists (shared with C04.R6)", floor=1)
     from .c04 import order_link_rule
     order_link_rule(ctx, "C01.R9")
+    ctx.rule("C01.R10", "Call: output count, function-port offset and port kinds all read the instantiated signature (shared with C06.R4): the validator types a call's wires by the instantiation", floor=3)
+    from .c06 import r4_call
+    from ..nf import NF
+    with ctx.as_rule(C06_R4="C01.R10"):
+        r4_call(ctx, NF(ctx.program))
     from .. import lints
     lints.arm(ctx)
 
